@@ -54,6 +54,21 @@ CHECKS["C01"] = (
     "DESIGN.md 6/C01",
 )
 
+CHECKS["C03"] = (
+    "exploration",
+    "exhaustive enumeration of stated configuration products through the real encoder, serialiser (automatic field filling) and validator, comparing decoded parameters, counts and picture numbers",
+    "Core product (3 modes x 13/49 wavelet pairs x 7 depth pairs) and six secondary products (slices x fragment sizes; colour format x coding mode x scan x frame sizes; signal ranges; quantisation matrix and format variants; picture_bytes around the minimum; content x picture numbers x counts) are each enumerated completely; every configuration is either refused with a typed error or yields a stream the validator accepts whose decoded pictures carry exactly the configured parameters, count and numbers.",
+    "Small pictures only; the global cross product of the groups is not covered; validator and encoder share pseudocode (a defect common to both directions is not visible here; see C08/C09/C11).",
+    "DESIGN.md 6/C03",
+)
+CHECKS["C04"] = (
+    "exploration",
+    "exhaustive enumeration of lossless / qindex-0 configurations x a pixel-value alphabet (constants, an impulse at every position, checkerboards, all 6^4 2x2 luma pictures), encode -> serialise -> decode identity",
+    "For every lossless configuration of C03's products, and lossy ones where the encoder's own description shows qindex 0 everywhere, every picture of the content alphabet must decode to exactly the input samples.",
+    "Picture area <= 16x8; values from {0,1,mid-1,mid,max-1,max}; quantised lossy cases are set aside and counted.",
+    "DESIGN.md 6/C04",
+)
+
 NOT_YET = "check not built yet in this revision (planned, see DESIGN.md section 6)"
 
 
